@@ -71,6 +71,18 @@ struct UnaryTanhOp;
 template<typename Expr, size_t DIMS>
 struct UnaryTransOp;
 
+template<typename Expr, size_t DIMS>
+struct UnaryCTransOp;
+
+template<typename Expr, size_t DIMS>
+struct UnaryInvOp;
+
+template<typename Expr, size_t DIMS>
+struct UnaryCofOp;
+
+template<typename Expr, size_t DIMS>
+struct UnaryAdjOp;
+
 
 template<typename Expr, size_t DIMS>
 struct TensorViewExpr;
